@@ -110,7 +110,7 @@ def reduce (O : Oracle) (tie : PTerm → Bool) (ctx : TL) : TL → TL → Except
     | .optimal m _ =>
       if m < r.const ∨ (m = r.const ∧ tie r = true) then reduce O tie ctx kept rest
       else reduce O tie ctx (kept ++ [r]) rest
-    | .unbounded => reduce O tie ctx kept rest      -- `status == 3`: dead with a certified oracle; kept as in the code
+    | .unbounded => reduce O tie ctx (kept ++ [r]) rest   -- `status == 3` (impossible for a certified oracle): the row is kept
     | .infeasible => .error .valueError             -- `i += 1` then `raise`
     | .stuck => .error .oracleStuck
 
